@@ -594,6 +594,22 @@ def run_property(pid, tier="quick", seed=0):
                 keys[k] = max(keys.get(k, 0.0), ob.result["seconds"])
         base[pid] = keys
         json.dump(base, open(os.path.join(VERIF, "baseline_obligations.json"), "w"), indent=0, sort_keys=True)
+        # which z3 configuration decided the obligations the default tactic does not decide (tried first next time: pyvc/discharge.py)
+        hpath = os.path.join(VERIF, "solver_hints.json")
+        try:
+            hints = json.load(open(hpath))
+        except Exception:  # noqa: BLE001
+            hints = {}
+        mine = {}
+        for ob in obs:
+            if ob.result and ob.result["status"] == "discharged":
+                be = (ob.result.get("backend") or "").replace("z3:", "").replace("+focus", "")
+                if be in ("combined", "smt-core", "ematching-only"):
+                    mine[ob_key(ob)] = be
+        prefix_keys = set(keys)
+        hints = {k: v for k, v in hints.items() if k not in prefix_keys}
+        hints.update(mine)
+        json.dump(hints, open(hpath, "w"), indent=0, sort_keys=True)
         print(f"[{pid}] baseline rewritten: {len(keys)} obligation keys")
     print(f"[{pid}] tier={tier} functions={len(run.reports)} obligations={len(obs)} discharged={n_dis} "
           f"bounded_evaluations={sum(b.evaluations for b in run.bounded)} wall={time.time()-run.t0:.1f}s")
